@@ -34,6 +34,9 @@ var realDir string
 // longURLs makes every URL of the family carry a 5000-byte query string.
 var longURLs bool
 
+// shortURLs makes every URL of the family a host:port/path shorthand, fetched with -timeout=10.
+var shortURLs bool
+
 // realBytes returns the bytes a source of the given failure kind delivers.
 func realBytes(pi, kind int) []byte {
 	switch kind {
@@ -60,6 +63,10 @@ func realName(s scenario, forms []int, i int) string {
 		n = fmt.Sprintf("b%03d", i-s.NSrc)
 	}
 	if forms[i] == formURL {
+		if shortURLs {
+			// the shorthand without a scheme (host:port/path), as in "pprof localhost:6060/debug/pprof/heap"
+			return realHost + ":80/" + n
+		}
 		if longURLs {
 			// longer than any file name can be (stat answers "file name too long", not "no such file")
 			return "http://" + realHost + "/" + n + "?pad=" + strings.Repeat("x", 5000)
@@ -104,7 +111,7 @@ type realTransport struct {
 }
 
 func (t *realTransport) RoundTrip(req *http.Request) (*http.Response, error) {
-	if req.URL.Host != realHost {
+	if req.URL.Host != realHost && req.URL.Host != realHost+":80" {
 		return nil, errors.New("no such host " + req.URL.Host)
 	}
 	p := strings.TrimPrefix(req.URL.Path, "/")
@@ -131,7 +138,10 @@ func runReal(s scenario, forms []int, order []int) (observation, []string) {
 	for i := 0; i < m; i++ {
 		names[i] = realName(s, forms, i)
 		if forms[i] == formURL {
-			path, _, _ := strings.Cut(names[i][len("http://"+realHost+"/"):], "?")
+			path, _, _ := strings.Cut(names[i][strings.LastIndex(names[i], "/")+1:], "?")
+			if longURLs {
+				path, _, _ = strings.Cut(names[i][len("http://"+realHost+"/"):], "?")
+			}
 			byPath[path] = i
 		}
 	}
@@ -168,6 +178,9 @@ func runReal(s scenario, forms []int, order []int) (observation, []string) {
 	flags := drive.MkFlags(names[:s.NSrc], "proto")
 	for _, b := range names[s.NSrc:] {
 		drive.AddFlag(&flags, "base="+b)
+	}
+	if shortURLs {
+		drive.AddFlag(&flags, "timeout=10")
 	}
 	r := drive.Run(&drive.Session{Fetch: f, Flags: flags, Tr: tr})
 	var obs observation
@@ -226,6 +239,10 @@ func realFamily(c *vk.Ctx, idx *int64) {
 						longURLs = true
 						exploreReal(c, scenario{NSrc: ns, NBase: nb, Fail: fp}, forms, urls)
 						longURLs = false
+						// and as host:port/path shorthands with an explicit -timeout
+						shortURLs = true
+						exploreReal(c, scenario{NSrc: ns, NBase: nb, Fail: fp}, forms, urls)
+						shortURLs = false
 					}
 				}
 			}
@@ -242,6 +259,9 @@ func exploreReal(c *vk.Ctx, s scenario, forms, urls []int) {
 	tag := s.String() + " forms="
 	if longURLs {
 		tag = s.String() + " long-urls forms="
+	}
+	if shortURLs {
+		tag = s.String() + " shorthand-urls -timeout=10 forms="
 	}
 	for _, f := range forms {
 		tag += []string{"F", "U"}[f]
